@@ -5,6 +5,7 @@ open Litex Litex.Driver Litex.WbMem
   open sram   <nb> <depth> <aw> <ro> <burst> <init words...>
   open down   <nbs> <cbits>                                   adapter alone (slave response as input)
   open up     <nbm> <cbits>
+  open direct <nb>                                            equal-width Converter / Cache(0): plain connection
   open remap  <nb> <aw> <saw> <shift> <origin> <size> <nregions> (<srcOrigin> <srcSize> <dstOrigin>)*
   open wb2csr <nb> <register> <shift> <caw>
   open cache  <nbm> <nbs> <offsetbits> <linebits> <tagbits> <wordbits> <saw> <reverse>
@@ -29,6 +30,7 @@ def openNums (name : String) (p : List Nat) (hin hout : IO.FS.Stream) : Option (
   | "up", [nbm, cbits] =>
     let c : UpCfg := { nbm := nbm, cbits := cbits }
     some (serve (adapterNum nbm c.nbs (upConv c)) hin hout)
+  | "direct", [nb] => some (serve (adapterNum nb nb direct) hin hout)
   | "remap", nb :: aw :: saw :: shift :: origin :: size :: _n :: regs =>
     let c : RemapCfg := { aw := aw, saw := saw, shift := shift, origin := origin, size := size, regions := regionsOf regs }
     some (serve (adapterNum nb nb (remapper c)) hin hout)
